@@ -1118,7 +1118,7 @@ func nativeCallSpace() kit.Space {
 func spaces(tier string) []kit.Space {
 	debug.SetMaxStack(64 << 20) // a runaway recursion of the renderer dies quickly
 	sps := faultSpaces()
-	sps = append(sps, nativeCallSpace(), depthSpace(tier), showSpace(tier), urlSpace(tier))
+	sps = append(sps, nativeCallSpace(), chanSeqSpace(), embeddedSpace(), assertSpace(), bigTablesSpace(tier), depthSpace(tier), showSpace(tier), urlSpace(tier))
 	if only := os.Getenv("C05_ONLY"); only != "" { // development aid
 		var out []kit.Space
 		for _, sp := range sps {
@@ -1140,6 +1140,10 @@ func main() {
 		Rule:        "faults: every fault of the list (nil map write, nil pointer field/deref/method, index and slice bounds on string/slice/array/pointer-to-array, failed assertions, closed/nil channel misuse, divide and modulo by zero for 11 integer kinds, bad make sizes, short slice→array conversion, unhashable keys, uncomparable ==, nil func calls, plus defined-behaviour controls) × 4 operand forms × 6 program positions / 2 template positions × {no options, cancellable context}; depth: 16 recursive shapes × call depths around the register-stack boundaries; show: 32 contexts × every host value × declaration modes × {template body, macro}; url: 12 URL-attribute patterns × 3 preceding texts × second values × every host value × modes. A case is non-trivial when the combination exists and builds (it then really runs)",
 		Assumptions: []string{
 			"native-calls: 21 program and 7 template call forms × 10 failure kinds of the native callee × callee with/without Env × {not recovered, recovered by the caller}; besides the host-panic oracle the outcome (result kind, message, printed locals of the four register kinds) must equal that of the direct-call twin; a runtime.Error raised by the native function's own code is host code",
+			"chan-seq: every ordered pair and triple of 10 channel operations (receive, send, range, select with default, select ready to receive / to send, select cut short by a recovered send on a closed channel, receive and select-receive from a closed channel, recovered send on a closed channel) in one run, with and without a cancellable context: the output is the concatenation of what each operation prints alone",
+			"embedded: 10 native values (Customer{*Inner}, Deep{Mid{*Inner}}, pointers to them; nil embedded pointer; nil outer pointer) × 15 operations on promoted fields of the four register kinds and promoted methods × 6 holders (native variable, local copy, captured, package-level, template global, template variable) × {not recovered, recovered}: a nil pointer on the path gives the nil-pointer *PanicError (recoverable), otherwise the Go result; the value-receiver method through a nil pointer is left to the known finding of the faults space",
+			"assert-iface: 12 dynamic values (native types with no / fewer-parameter / more-parameter / other-result / pointer-receiver Name method, types declared in Scriggo, nil) × {x.(I), x.(I) in an expression, comma-ok, type switch} × source {any, another native interface} × 3 holders: result and panic message are those Go itself gives for the native values",
+			"big-tables: 27 table-indexed instruction kinds executed after n other entries of the same table, n around 127/128, 255/256 and beyond: either the compiler refuses (limit) or the program prints the expected value",
 			"C01's generated programs (space (a) of the design) are not re-run here",
 			"a panic raised by a method of a host value (String/Error/HTML/JS/JSON/CSS/Markdown, or the Go wrapper of a value method called through a nil pointer) is host code: the statement does not promise to convert it; it is classed 'host-code panic propagated'",
 			"results outside the documented list that are plain errors (an unshowable value: 'cannot show value of type …'; 'go of nil func value') are accepted and counted in their own outcome class: the statement's subject is host panics",
